@@ -309,6 +309,12 @@ func (f *frame) exec(ins ssa.Instruction, st *State) {
 			recv = f.val(c.Value, st)
 		}
 		f.defers = append(f.defers, deferRec{i, args, recv})
+		if d := recoverDeferOf(f.fn); d == i {
+			if e.recoverSeen == nil {
+				e.recoverSeen = map[*ssa.Function]bool{}
+			}
+			e.recoverSeen[f.fn] = true
+		}
 	case *ssa.RunDefers:
 		for k := len(f.defers) - 1; k >= 0; k-- {
 			d := f.defers[k]
